@@ -285,11 +285,23 @@ class Engine:
             ob.backend = "skipped"
             ob.detail += " [already refuted on another path]"
         else:
-            s = z3.Solver()
-            s.set("timeout", self.vf.timeout_ms)
-            s.add(self.pc)
-            s.add(z3.Not(goal))
-            r = s.check()
+            r = None
+            heavy = getattr(self, "heavy_axioms", None)
+            if heavy:
+                # first without the (quantified) order axioms: fewer assumptions, so `unsat` is still a proof
+                s0 = z3.Solver()
+                s0.set("timeout", min(8000, self.vf.timeout_ms))
+                s0.add([t for t in self.pc if t.get_id() not in heavy])
+                s0.add(z3.Not(goal))
+                if s0.check() == z3.unsat:
+                    r = z3.unsat
+                    s = s0
+            if r is None:
+                s = z3.Solver()
+                s.set("timeout", self.vf.timeout_ms)
+                s.add(self.pc)
+                s.add(z3.Not(goal))
+                r = s.check()
             ob.status = str(r)
             if r == z3.sat:
                 try:
@@ -315,6 +327,8 @@ class Engine:
                 self.vf.refuted.add(oid)
         self.vf.proved_cache.add((oid, tuple(ob.path)))
         ob.secs = time.time() - t0
+        if os.environ.get("PYVC_DEBUG_SAT") and ob.status == "sat" and ob.backend != "skipped":
+            print(f"[sat] {oid} {ob.detail[:300]}", flush=True)
         if os.environ.get("PYVC_DEBUG") and ob.secs > 1:
             print(f"[prove {ob.secs:.2f}s {ob.status} {ob.backend}] {oid} {detail[:80]}", flush=True)
         self.obligations.append(ob)
@@ -958,6 +972,23 @@ class Engine:
         pfx = self.vf.oid_prefix(frame)
         inv = list(spec.invariant) if spec else []
         env_extra = {k2: v2 for k2, v2 in (hidden or {}).items() if not k2.startswith("__")}
+        wit_head, wit_next = {}, {}
+        if spec and spec.witness:
+            def _expr_fn(param, expr, more):
+                def fn(eng, args, kwargs, node, fr):
+                    ex = dict(wit_ctx[0])
+                    ex.update(more)
+                    ex[param] = args[0]
+                    return eng.eval_spec(expr, frame, extra=ex)
+                return VFunc("native", fn=fn, name="witness")
+            wit_ctx = [env_extra]
+            for wname, (param, init, update) in spec.witness.items():
+                uf = z3.Function(fresh_name("wit_" + wname), z3.IntSort(), z3.IntSort())
+                headf = VFunc("native", fn=(lambda eng, args, kwargs, node, fr, uf=uf: VInt(uf(self.models.as_int(eng, args[0])))), name="witness")
+                wit_head[wname] = headf
+                wit_next[wname] = _expr_fn(param, update, {"old_" + wname: headf})
+                prev = getattr(frame, "ghost_fns", {}).get(wname)
+                env_extra[wname] = _expr_fn(param, init, {"old_" + wname: prev} if prev is not None else {})
         # 1. invariant on entry
         for j, c in enumerate(inv):
             self.prove(f"{pfx}:inv-entry@loop{k}#{j + 1}", self.eval_goal(c, frame, extra=env_extra), "inv-entry", s, detail=c, frame=frame, extra=env_extra)
@@ -1017,6 +1048,11 @@ class Engine:
             if "__at_head__" in hidden:
                 hidden["__at_head__"](hidden)
             env_extra = {k2: v2 for k2, v2 in hidden.items() if not k2.startswith("__")}
+        env_extra = dict(env_extra, **wit_head)
+        if wit_head:
+            if not hasattr(frame, "ghost_fns"):
+                frame.ghost_fns = {}
+            frame.ghost_fns.update(wit_head)
         self.loop_old[k] = pre
         # 3. assume invariant
         for c in inv:
@@ -1048,6 +1084,10 @@ class Engine:
             if "__advance__" in hidden:
                 hidden["__advance__"](hidden)
             env_extra = {k2: v2 for k2, v2 in hidden.items() if not k2.startswith("__")}
+        if wit_next:
+            env_extra = {k2: v2 for k2, v2 in env_extra.items() if k2 not in wit_head}
+            wit_ctx[0] = dict(env_extra)
+            env_extra = dict(env_extra, **wit_next)
         for j, c in enumerate(inv):
             self.prove(f"{pfx}:inv-preserved@loop{k}#{j + 1}", self.eval_goal(c, frame, extra=env_extra), "inv-preserved", s, detail=c, frame=frame, extra=env_extra)
         if m0 is not None:
@@ -1540,6 +1580,8 @@ class Engine:
             return VSeq(lambda k: z3.If(c, a.at(k), b.at(k)), z3.If(c, a.n, b.n), a.kind, esort=a.esort)
         if isinstance(a, VTuple) and isinstance(b, VTuple) and len(a.items) == len(b.items):
             return VTuple([self.ite(c, x, y, node) for x, y in zip(a.items, b.items)])
+        if isinstance(a, (VOpaque, VNone)) and isinstance(b, (VOpaque, VNone)):
+            return VOpaque(z3.If(c, self.models.to_val(self, a), self.models.to_val(self, b)), tag="ite")
         raise OutOfSubset(node, f"if-expression over {a!r} / {b!r} in a spec")
 
     def ev_Tuple(self, e, frame):
@@ -1724,6 +1766,10 @@ class Engine:
         saved = (self.spec, self.spec_env)
         self.spec = True
         env = dict(self.spec_env or {}) if saved[0] else {}
+        gf = getattr(frame, "ghost_fns", None)
+        if gf:
+            for k2, v2 in gf.items():
+                env.setdefault(k2, v2)      # witness functions of loops already passed (lowest priority)
         if extra:
             env.update(extra)
         self.spec_env = env
